@@ -274,6 +274,12 @@ func (r *rewriter) timePkgObj(e ast.Expr, names ...string) (string, bool) {
 	if obj == nil || obj.Pkg() == nil || obj.Pkg().Path() != "time" {
 		return "", false
 	}
+	// package-level objects only (time.After the function, not the method time.Time.After)
+	if id, isID := sel.X.(*ast.Ident); !isID {
+		return "", false
+	} else if _, isPkg := r.info.Uses[id].(*types.PkgName); !isPkg {
+		return "", false
+	}
 	for _, n := range names {
 		if obj.Name() == n {
 			return n, true
@@ -445,7 +451,7 @@ func (r *rewriter) file2(f *ast.File) {
 					}
 				}
 			}
-			if n, ok := r.timePkgObj(x.Fun, "AfterFunc", "NewTicker", "NewTimer"); ok {
+			if n, ok := r.timePkgObj(x.Fun, "AfterFunc", "NewTicker", "NewTimer", "After"); ok {
 				if n == "NewTimer" {
 					die("%s: time.NewTimer is not supported by the scheduler", r.pos(x))
 				}
